@@ -154,6 +154,8 @@ Definition audited : list audit := [
   A "object" "object.go" "First" "slice" 1 U "[]rune(s)[:1] after s != """"";
   A "object" "object.go" "Function.lambdaPrint" "indexc" 2 U "Statements[0] after len(Statements) != 1 short-circuit";
   A "object" "object.go" "Hashable" "assert" 1 U "o.(Float) under case FLOAT";
+  A "object" "object.go" "Identical" "assert" 6 U "a.(T) / b.(T) under case a.Type() of that very type after a.Type()==b.Type(); Type() is faithful to the Go type (REFERENCE and REGISTER are types of their own; only SmallMap/*BigMap have type MAP)";
+  A "object" "object.go" "Identical" "index" 6 U "ae[i]/be[i] and am[i]/bm[i] with i from range over ae / am after len(ae)==len(be), len(am)==len(bm)";
   A "object" "object.go" "Hashable" "slice" 2 U "smallArr[:len], smallKV[:len] with len <= capacity by construction";
   A "object" "object.go" "lambdaBodyNeedsBraces" "index" 1 U "map lookup ast.Precedences[type]";
   A "object" "object.go" "MakePair" "indexc" 1 U "constant index into a fixed array";
@@ -200,7 +202,7 @@ Definition audited : list audit := [
   A "object" "state.go" "Environment.MakeRegister" "panic" 1 OP "No more registers: C05 register-file balance";
   A "object" "state.go" "Environment.ReleaseRegister" "panic" 1 OP "non last register: C05 register-file balance";
   A "object" "state.go" "Environment.SaveGlobals" "assert" 1 U "v.(Function) after Type()==FUNC";
-  A "object" "state.go" "Environment.SaveGlobals" "index" 1 U "map lookup";
+  A "object" "state.go" "Environment.SaveGlobals" "index" 2 U "map lookups e.store[k], e.store[f.Name.Literal()] (a missing key yields the zero value)";
   A "object" "state.go" "Environment.SaveGlobals" "make" 1 U "make(0, len(store))";
   A "object" "state.go" "Environment.SetNoChecks" "index" 2 U "map lookup / store";
   A "object" "state.go" "Environment.create" "index" 1 U "map store";
